@@ -377,7 +377,38 @@ def install_token_pickle():
     )
 
 
+def native_networkx():
+    """S6b: run networkx graph-building methods natively.  Under the tracer `n not in self._node`
+    with n = (node, attr_dict) does not raise TypeError (CrossHair's containment check does not
+    hash), so Graph.add_nodes_from / copy() added the (node, dict) *tuples* as nodes - seen as a
+    spurious AssertionError in Pipeline.topological_generations for pipelines with nullary functions.
+    Graph nodes are concrete objects (PipeFunc, str, small ints); nothing symbolic enters."""
+    import functools
+
+    import networkx as nx
+    from crosshair.tracers import NoTracing
+
+    def wrap(cls, name):
+        orig = getattr(cls, name)
+        if getattr(orig, "__verif_native__", False):
+            return
+
+        @functools.wraps(orig)
+        def w(*a, **k):
+            with NoTracing():
+                return orig(*a, **k)
+
+        w.__verif_native__ = True
+        setattr(cls, name, w)
+
+    for cls in (nx.Graph, nx.DiGraph):
+        for name in ("add_nodes_from", "add_edges_from", "copy", "add_node", "add_edge", "subgraph", "remove_node", "remove_nodes_from"):
+            if name in cls.__dict__:
+                wrap(cls, name)
+
+
 def warm_networkx():
+    native_networkx()
     """S6: compile networkx's lazily generated wrappers outside tracing."""
     import networkx as nx
 
